@@ -70,7 +70,7 @@ pub fn step(st: &mut St, toks: &[&str]) -> String {
             };
             update(h, &d)
         }
-        // C17: the same bytes (byte i = pat_byte(seed, i mod 2^20)) in ONE `update` call (`bigupd`) or
+        // C17: the same bytes (byte i = pat_byte(seed, i mod BIG_PERIOD)) in ONE `update` call (`bigupd`) or
         // in 1 MiB calls (`stream`)
         ["groestl", op @ ("bigupd" | "stream"), slot, nbytes, seed] => {
             let (Some(n), Some(sd)) = (num(nbytes), num(seed)) else {
